@@ -25,7 +25,14 @@ T = {
          ""),
  "C05": ("Theorems C05_decodes_exactly (every IsChunked encoding -> exactly payload and trailers, stops at its end), C05_complete_only_if_wellformed (Complete => IsChunked of the consumed bytes, body = concatenation of the declared data ranges), C05_grammar_unambiguous, C05_delivery_independent, C05_decodes_exactly_under_any_delivery, and C05_rejection_names_first_defect (the decoder rejects with category e iff the input is well-formed chunks followed by a first offending element of category e: size line not text / not 1*HEXDIG fitting usize, chunk not followed by CRLF, defective trailer line); induction on the chunk list / the decoder loop. Correspondence through Response::parse: generated encodings, mutations and all strings up to length 4 (quick) / 6 (thorough) over a 10-symbol structural alphabet.",
          "The trailer section is specified by reference to the header-block parser (whose grammar is Spec/HeaderGrammar.v, C03_header_block_exact, and whose rejections are block_defect); chunk extensions: any valid UTF-8 without CRLF."),
- "C06": ("PARTIAL by nature. Proved on the model: consumed <= presented for all three parsers (slice ranges), body never longer than the declared length "
+ "C06": ("For the crate's own parsing code the property is now a theorem about a CHECKED model (Model/Checked.v): every slice range, str range (char boundaries included), usize "
+         "subtraction / addition, Vec reserve / extend of request.rs, response.rs, chunked_body.rs and the str slicing / u16 arithmetic of coding.rs is an explicit partial operation "
+         "labelled with its source site, inside the source's own loop over total_consumed. C06_request_parse_never_panics, C06_response_parse_never_panics, C06_chunk_decode_never_panics, "
+         "C06_split_at_never_panics, C06_content_type_split_never_panics, C06_zlib_sniff_arithmetic: no operation fails and the checked parsers return exactly the pure model's answer, for every "
+         "input, every limit configuration and every parser state reachable under the documented protocol (req_reach / resp_reach: the fresh value and whatever an Incomplete call left behind; "
+         "invariants C06_body_never_longer_than_declared, C06_response_invariant_kept); one premise about the machine: stored bytes + presented bytes <= isize::MAX. The labels are compared on every "
+         "run with the inventory of panic-capable operations that tools/panic_sites.py regenerates from /repo/src (54 sites: 51 proved, 2 reviewed, 0 unaccounted); a difference widens the crash search "
+         "and is reported in the evidence. Still PARTIAL by nature for the rest. Also proved on the model: consumed <= presented for all three parsers (slice ranges), body never longer than the declared length "
          "(no usize underflow), the byte count saturates, str-slicing indices next to an ASCII delimiter of a UTF-8-valid line are char boundaries "
          "(C06_slices_at_char_boundaries, for multi-byte text at any position). Runtime part: every case of the run executes under catch_unwind in a supervised "
          "worker (process aborts are detected), with overflow checks on (dev) and off (release), numeric extremes 0..2^64+1, multi-byte text at every slicing position.",
@@ -39,9 +46,9 @@ T = {
  "C09": ("Theorems C09_request_suffix / C09_request_local / C09_response_suffix / C09_request_pipeline / C09_response_pipeline: a Complete answer is "
          "unchanged by any appended bytes, depends only on the consumed bytes, and a concatenation of messages is split by fresh parsers at the "
          "message lengths (responses: by the boundary). Corollaries of the resumption and locality lemmas, induction on the number of messages.", ""),
- "C10": ("Theorems C10_request_roundtrip / C10_response_roundtrip / C10_generated_is_grammatical: for every well-formed value (WfRequest / WfResponse, pinned in the file; methods: any UTF-8 text without SP and CRLF, in particular every graphic-ASCII token, C10_graphic_methods_are_legal) the generated bytes are accepted as one message consuming every byte, the parsed value equals the original, and regenerating gives the same bytes; proved from grammar completeness, parse_dec (show_dec n) = n, trimming lemmas and UTF-8 validity across concatenation.",
+ "C10": ("Theorems C10_request_roundtrip / C10_response_roundtrip / C10_generated_is_grammatical: for every well-formed value (WfRequest / WfResponse, pinned in the file; methods: any UTF-8 text without SP and CRLF, in particular every graphic-ASCII token, C10_graphic_methods_are_legal) the generated bytes are accepted as one message consuming every byte, the parsed value equals the original, and regenerating gives the same bytes; proved from grammar completeness, parse_dec (show_dec n) = n, trimming lemmas and UTF-8 validity across concatenation. C10_folding_generator_agrees: rhymessage's folding generator (fold_header, modelled in Model/Headers.v hdr_generate_full and compared with the crate on every run) emits exactly those bytes whenever the lines fit; C10_fold_piece_within_limit.",
          "Relative to the per-target premise uri_ok (rhymuri: Display then parse is the identity, displayed text is graphic ASCII), checked for every generated target by the run; K2 is where it fails. Header folding on generate is not modelled (values needing folding are outside the statement)."),
- "C11": ("Theorems C11_every_accepted_response_reserialises + C11_accepted_response_wellformed: every response the parser accepts (Content-Length, chunked or body-less) is a well-formed value -- legal names, printable trimmed values, for chunked input the C12 rewriting with a single Content-Length equal to the de-chunked body (C11_dechunked_headers_wellformed) -- and generating from it gives a message that parses to the same value with the whole output consumed. C11_request_reserialise: the same for every accepted request (any method the parser stores: UTF-8 without SP/CRLF), given a uri_ok target and re-serialised lines within the limits (the property's own quantifier).",
+ "C11": ("Theorems C11_every_accepted_response_reserialises + C11_accepted_response_wellformed: every response the parser accepts (Content-Length, chunked or body-less) is a well-formed value -- legal names, printable trimmed values, for chunked input the C12 rewriting with a single Content-Length equal to the de-chunked body (C11_dechunked_headers_wellformed) -- and generating from it gives a message that parses to the same value with the whole output consumed. C11_request_reserialise: the same for every accepted request (any method the parser stores: UTF-8 without SP/CRLF), given a uri_ok target and re-serialised lines within the limits. That last premise cannot be dropped: C11_unrestricted_request_reserialise_refuted exhibits an accepted request (a 1000-byte header line without whitespace) on which the folding generator fails -- known finding K6, reported as KNOWN-FINDING with two witnesses replayed on the crate every run (generate() -> HeaderLineCouldNotBeFolded; a fold at a tab read back as a space).",
          "uri_ok is the premise about rhymuri (Display then parse is the identity, displayed text graphic ASCII), checked per case by the run; known findings K2, K3 are where it fails. Bodies longer than usize::MAX are excluded by an explicit premise."),
  "C12": ("Theorems C12_content_length (single value = decoded body length), C12_transfer_encoding (final coding removed, the others kept in order in one header joined by ', ', "
          "no header when none remain), C12_codings_listed (tokenising the rewritten header gives back exactly the remaining codings, in order), C12_no_trailer_header, C12_other_headers (originals then non-framing trailer fields, order and values kept), C12_trailer_framing_fields_ignored, "
